@@ -267,6 +267,7 @@ def _tree_to_objects(
         raise KeyError
 
     # Find all the changed blobs
+    base_intertree = None
     for change in tree.iter_changes(base_tree):
         if change.name[1] in BANNED_FILENAMES:
             continue
@@ -326,10 +327,18 @@ def _tree_to_objects(
             shamap[change.path[1]] = None
         elif change.kind[1] != "directory":
             raise AssertionError(change.kind[1])
-        for p in change.path:
-            if p is None:
-                continue
-            dirty_dirs.add(osutils.dirname(p))
+        if change.path[1] is not None:
+            dirty_dirs.add(osutils.dirname(change.path[1]))
+        if change.path[0] is not None:
+            # The directory the entry used to live in has changed too; it
+            # may itself have been renamed in this revision, so mark it
+            # dirty under its current path.
+            old_dir = osutils.dirname(change.path[0])
+            if base_intertree is None:
+                base_intertree = InterTree.get(base_tree, tree)
+            new_dir = base_intertree.find_target_path(old_dir)
+            if new_dir is not None:
+                dirty_dirs.add(new_dir)
 
     # Fetch contents of the blobs that were changed
     for (path, file_id), chunks in tree.iter_files_bytes(
